@@ -10,6 +10,7 @@ import (
 	api "github.com/regen-network/regen-ledger/api/v2/regen/ecocredit/basket/v1"
 	baseapi "github.com/regen-network/regen-ledger/api/v2/regen/ecocredit/v1"
 	"github.com/regen-network/regen-ledger/x/ecocredit/v3"
+	"github.com/regen-network/regen-ledger/x/ecocredit/v3/base"
 	"github.com/regen-network/regen-ledger/x/ecocredit/v3/basket"
 	types "github.com/regen-network/regen-ledger/x/ecocredit/v3/basket/types/v1"
 	"github.com/regen-network/regen-ledger/x/ecocredit/v3/zzinv"
@@ -32,32 +33,136 @@ func runStep(req sdk.Msg, call func(k Keeper, ctx context.Context) error, hook f
 
 func VerifHarness_Step_BasketCreate() {
 	req := &types.MsgCreate{}
-	runStep(req, func(k Keeper, ctx context.Context) error { _, err := k.Create(ctx, req); return err }, nil)
+	runStep(req, func(k Keeper, ctx context.Context) error { _, err := k.Create(ctx, req); return err },
+		func(s *zzinv.Step) {
+			s.SkipC05 = true
+			var fee api.BasketFee
+			zz.OrmRow0("regen.ecocredit.basket.v1.BasketFee", &fee)
+			denom := ""
+			if fee.Fee != nil {
+				denom = fee.Fee.Denom
+			}
+			zzinv.CheckC05FeeBurn(s.Sk.Basket, denom, fee.Fee != nil)
+			if s.Err == nil {
+				if fee.Fee != nil {
+					feeInt, _ := sdk.NewIntFromString(fee.Fee.Amount)
+					feeAmt := zz.QOf(feeInt)
+					zz.Assert(zz.QEq(zz.QSub(zz.BankBal0(s.Signer, fee.Fee.Denom), zz.BankBal1(s.Signer, fee.Fee.Denom)), feeAmt), "C18 a successful basket Create debits the curator exactly the stored basket fee")
+					zz.Assert(zz.QEq(zz.QSub(zz.BankSupply0(fee.Fee.Denom), zz.BankSupply1(fee.Fee.Denom)), feeAmt), "C18 a successful basket Create burns exactly the stored basket fee")
+					mod := zz.ModuleAddr(basket.BasketSubModuleName)
+					zz.Assert(zz.QEq(zz.BankBal0(mod, fee.Fee.Denom), zz.BankBal1(mod, fee.Fee.Denom)), "C18 the basket module account keeps nothing of the basket fee")
+					zz.Assert(zz.And(len(req.Fee) > 0, zz.StrEq(req.Fee[0].Denom, fee.Fee.Denom)), "C18 basket Create succeeds only with an offer in the fee denom")
+					if len(req.Fee) > 0 {
+						zz.Assert(zz.QLe(feeAmt, zz.QOf(req.Fee[0].Amount)), "C18 basket Create succeeds only if the offer covers the fee")
+					}
+				} else {
+					zz.Assert(zz.BankCalls() == 1, "C18 with no basket fee set, basket Create charges nothing (only denom metadata is set)")
+				}
+				// the created basket
+				zz.Assert(zz.AllWritten2(zzinv.TBasket, func(pre *api.Basket, pe bool, post *api.Basket, qe bool) bool {
+					return zz.And(zz.Not(pe), zz.And(qe, zz.BytesEq(post.Curator, s.Signer)))
+				}), "C08 basket Create only creates a basket curated by the signer")
+			}
+		})
 }
 
 func VerifHarness_Step_BasketPut() {
 	req := &types.MsgPut{}
-	runStep(req, func(k Keeper, ctx context.Context) error { _, err := k.Put(ctx, req); return err }, nil)
+	runStep(req, func(k Keeper, ctx context.Context) error { _, err := k.Put(ctx, req); return err },
+		func(s *zzinv.Step) {
+			if s.Err == nil {
+				var b api.Basket
+				found := zz.OrmLookup0(zzinv.TBasket, "BasketDenom", &b, req.BasketDenom)
+				zz.Assert(found, "C05 Put succeeds only into an existing basket")
+				total := zz.QInt(0)
+				for _, c := range req.Credits {
+					total = zz.QAdd(total, zz.QParse(c.Amount))
+					// C11 (only-if direction): class allowed, credit type matches
+					var bt baseapi.Batch
+					bf := zz.OrmLookup0(zzinv.TBatch, "Denom", &bt, c.BatchDenom)
+					classID := base.GetClassIDFromBatchDenom(bt.Denom)
+					var cl baseapi.Class
+					cf := zz.OrmLookup0(zzinv.TClass, "Id", &cl, classID)
+					zz.Assert(zz.And(bf, zz.OrmExists0(zzinv.TBasketClass, b.Id, classID)), "C11 Put succeeds only for credits whose class is on the basket's allowed list")
+					zz.Assert(zz.And(cf, zz.StrEq(cl.CreditTypeAbbrev, b.CreditTypeAbbrev)), "C11 Put succeeds only for credits of the basket's credit type")
+				}
+				minted := zz.QMul(zz.QPow10(zzinv.Precision), total)
+				zz.Assert(zz.QEq(zz.QSub(zz.BankBal1(s.Signer, b.BasketDenom), zz.BankBal0(s.Signer, b.BasketDenom)), minted), "C05 Put mints exactly amount x 10^precision basket tokens to the depositor")
+				zz.Assert(zz.QEq(zz.QSub(zz.BankSupply1(b.BasketDenom), zz.BankSupply0(b.BasketDenom)), minted), "C05 Put increases the token supply by exactly amount x 10^precision")
+			}
+		})
 }
 
 func VerifHarness_Step_BasketTake() {
 	// stated bound: one Take drains at most iter+1 basket balances
 	zz.AssumeLoopBound("keeper.Keeper).Take", zz.Bound("iter", 1)+1)
 	req := &types.MsgTake{}
-	runStep(req, func(k Keeper, ctx context.Context) error { _, err := k.Take(ctx, req); return err }, nil)
+	var resp *types.MsgTakeResponse
+	runStep(req, func(k Keeper, ctx context.Context) error { r, err := k.Take(ctx, req); resp = r; return err },
+		func(s *zzinv.Step) {
+			if s.Err == nil {
+				var b api.Basket
+				found := zz.OrmLookup0(zzinv.TBasket, "BasketDenom", &b, req.BasketDenom)
+				zz.Assert(found, "C05 Take succeeds only from an existing basket")
+				amt, _ := sdk.NewIntFromString(req.Amount)
+				burned := zz.QOf(amt)
+				zz.Assert(zz.QEq(zz.QSub(zz.BankBal0(s.Signer, b.BasketDenom), zz.BankBal1(s.Signer, b.BasketDenom)), burned), "C05 Take debits the owner exactly the amount taken")
+				zz.Assert(zz.QEq(zz.QSub(zz.BankSupply0(b.BasketDenom), zz.BankSupply1(b.BasketDenom)), burned), "C05 Take burns exactly the amount taken")
+				// credits released in total = amount / 10^precision, all to the owner
+				released := zz.SumDelta(zzinv.TBatchBalance, func(r *baseapi.BatchBalance) zz.Q {
+					return zz.QIf(zz.BytesEq(r.Address, s.Signer), zz.QAdd(zz.QParse(r.TradableAmount), zz.QParse(r.RetiredAmount)), zz.QInt(0))
+				})
+				zz.Assert(zz.QEq(zz.QMul(zz.QPow10(zzinv.Precision), released), burned), "C05 Take releases amount / 10^precision credits in total")
+				// C11: auto-retire
+				gotTradable := zz.SumDelta(zzinv.TBatchBalance, func(r *baseapi.BatchBalance) zz.Q {
+					return zz.QIf(zz.BytesEq(r.Address, s.Signer), zz.QParse(r.TradableAmount), zz.QInt(0))
+				})
+				zz.Assert(zz.Implies(zz.Not(b.DisableAutoRetire), zz.QEq(gotTradable, zz.QInt(0))), "C11 credits taken from a basket with auto-retire enabled are never delivered tradable")
+				// C11: oldest first: if a balance of the basket was reduced, every balance that sorts
+				// before it (start date, then denom) is gone
+				d := zz.NondetAtom("earlier-denom*")
+				var r1 api.BasketBalance
+				e1pre := zz.OrmRow0(zzinv.TBasketBalance, &r1, b.Id, d)
+				e1post := zz.OrmExists1(zzinv.TBasketBalance, b.Id, d)
+				zz.Assert(zz.AllWritten2(zzinv.TBasketBalance, func(pre *api.BasketBalance, pe bool, post *api.BasketBalance, qe bool) bool {
+					reduced := zz.And(pe, zz.Or(zz.Not(qe), zz.QLt(zz.QParse(post.Balance), zz.QParse(pre.Balance))))
+					earlier := zz.And(e1pre, zzinv.BalanceBefore(&r1, pre))
+					return zz.Implies(zz.And(reduced, zz.And(earlier, pre.BasketId == b.Id)), zz.Not(e1post))
+				}), "C11 Take drains the batch with the earliest start date completely before touching a later one")
+				_ = resp
+			}
+		})
+}
+
+func govOnly(name string) func(s *zzinv.Step) {
+	return func(s *zzinv.Step) {
+		if s.Err == nil {
+			zz.Assert(zz.BytesEq(s.Signer, s.Authority), "C08 "+name+" succeeds only for the governance authority")
+		}
+	}
 }
 
 func VerifHarness_Step_BasketUpdateBasketFee() {
 	req := &types.MsgUpdateBasketFee{}
-	runStep(req, func(k Keeper, ctx context.Context) error { _, err := k.UpdateBasketFee(ctx, req); return err }, nil)
+	runStep(req, func(k Keeper, ctx context.Context) error { _, err := k.UpdateBasketFee(ctx, req); return err }, govOnly("UpdateBasketFee"))
 }
 
 func VerifHarness_Step_BasketUpdateCurator() {
 	req := &types.MsgUpdateCurator{}
-	runStep(req, func(k Keeper, ctx context.Context) error { _, err := k.UpdateCurator(ctx, req); return err }, nil)
+	runStep(req, func(k Keeper, ctx context.Context) error { _, err := k.UpdateCurator(ctx, req); return err },
+		func(s *zzinv.Step) {
+			if s.Err == nil {
+				var b api.Basket
+				found := zz.OrmLookup0(zzinv.TBasket, "BasketDenom", &b, req.Denom)
+				zz.Assert(zz.And(found, zz.BytesEq(b.Curator, s.Signer)), "C08 UpdateCurator succeeds only for the basket's curator")
+				zz.Assert(zz.AllWritten2(zzinv.TBasket, func(pre *api.Basket, pe bool, post *api.Basket, qe bool) bool {
+					return zz.And(pe, pre.Id == b.Id)
+				}), "C08 UpdateCurator writes no basket other than the one it names")
+			}
+		})
 }
 
 func VerifHarness_Step_BasketUpdateDateCriteria() {
 	req := &types.MsgUpdateDateCriteria{}
-	runStep(req, func(k Keeper, ctx context.Context) error { _, err := k.UpdateDateCriteria(ctx, req); return err }, nil)
+	runStep(req, func(k Keeper, ctx context.Context) error { _, err := k.UpdateDateCriteria(ctx, req); return err }, govOnly("UpdateDateCriteria"))
 }
